@@ -117,4 +117,10 @@ TEXT = {
         design_ref='DESIGN.md §5 C20, §6',
         note="partial: rustc decides; the automaton is a model of the API's signatures tied only by the verdicts. TypeBuilder::<_, PathAssigned>::default() compiles and panics at run time (no ill-formed value results) - outside the negative grammar.",
     ),
+    'C15': dict(
+        technique='Lean 4 proofs that registration ids are independent of documentation (simulation: registering the docs-erased graph = erasing docs of the registered graph) and that the derive and the built-in impls depend on the docs feature in documentation strings only + one fingerprint build per feature set of scale-info, bytes compared',
+        level="Proof: SIM.C15.register_strip / run_strip (for every type graph, fuel and history: the interner, the ids and the output of registration commute with erasing documentation), impls_docs_only, derive_docs_only, derive_docs_off_eq, strip_wf, strip_ids, strip_refs, strip_fill, strip_idem. Tie: a fingerprint program over a generated corpus is built under 9 (thorough: all 64) feature sets; registry bytes must be identical within the no-docs group and within the docs group, and equal across groups after removing documentation strings (V14 layout decoder + stripReg).",
+        design_ref='DESIGN.md §5 C15',
+        note="partial: the theorems cover the model's feature-dependent points (docs gating); that no OTHER cfg-dependent behaviour exists (std/no_std string representation, serde, decode, bit-vec, schema) is observed one build per configuration, not proved.",
+    ),
 }
